@@ -692,7 +692,12 @@ fn chain_ambiguous(c: &Chain) -> bool {
 
 fn term_ambiguous(t: &Term) -> bool {
     match t {
-        Term::Tuple(_, fs) => fs.iter().any(|f| matches!(f, Field::Val(_, c) if chain_ambiguous(c))),
+        Term::Tuple(name, fs) => {
+            // `x[..., …, ...]`: the later bare spread would be read as x again
+            (matches!((name, fs.first()), (TupName::Inherit, Some(Field::Spread(Some(_)))))
+                && fs.iter().skip(1).any(|f| matches!(f, Field::Spread(None))))
+                || fs.iter().any(|f| matches!(f, Field::Val(_, c) if chain_ambiguous(c)))
+        }
         Term::Block(e) | Term::Fn { body: Some(e), .. } => e.branches.iter().any(|b| {
             b.cond.iter().any(chain_ambiguous) || b.cons.as_ref().map(|k| k.iter().any(chain_ambiguous)).unwrap_or(false)
         }),
